@@ -18,12 +18,23 @@ impl InterfaceInner {
             return None;
         }
 
+        // Per RFC 1122 § 3.3.6, a datagram received via a link-layer broadcast (or multicast)
+        // that does not specify an IP broadcast or multicast destination is silently discarded:
+        // in particular it must never be answered with an ICMP error or a TCP reset (§ 3.2.2).
+        let link_unicast = eth_frame.dst_addr().is_unicast();
+
         match eth_frame.ethertype() {
             #[cfg(feature = "proto-ipv4")]
             EthernetProtocol::Arp => self.process_arp(self.now, &eth_frame),
             #[cfg(feature = "proto-ipv4")]
             EthernetProtocol::Ipv4 => {
                 let ipv4_packet = check!(Ipv4Packet::new_checked(eth_frame.payload()));
+                if !link_unicast
+                    && !ipv4_packet.dst_addr().is_multicast()
+                    && !self.is_broadcast_v4(ipv4_packet.dst_addr())
+                {
+                    return None;
+                }
 
                 self.process_ipv4(
                     sockets,
@@ -37,6 +48,9 @@ impl InterfaceInner {
             #[cfg(feature = "proto-ipv6")]
             EthernetProtocol::Ipv6 => {
                 let ipv6_packet = check!(Ipv6Packet::new_checked(eth_frame.payload()));
+                if !link_unicast && !ipv6_packet.dst_addr().is_multicast() {
+                    return None;
+                }
                 self.process_ipv6(sockets, meta, eth_frame.src_addr().into(), &ipv6_packet)
                     .map(EthernetPacket::Ip)
             }
